@@ -1,6 +1,7 @@
 import ScyllaVerif.Model.Util
 import ScyllaVerif.Model.FrameStream
 import ScyllaVerif.Drive.C02
+import ScyllaVerif.Model.Pool
 /-! Line-protocol driver for C10.
 
 * `frames <hex>`            — `read_response_frame` in a loop over an in-memory reader holding exactly these bytes;
@@ -26,6 +27,68 @@ def runFrames (bytes : List UInt8) : String :=
   let body := if fs.isEmpty then "-" else " ".intercalate (fs.map frameStr)
   s!"{body} | {tailStr t}"
 
+/-! ### pool level (`Model/Pool.lean`) -/
+
+open ScyllaVerif.Pool in
+structure PoolSt where
+  p : ScyllaVerif.Pool.Pool
+  refusing : Bool := false
+  settled : Bool := true
+  out : List String := []
+
+def openN : Nat → ScyllaVerif.Pool.Pool → ScyllaVerif.Pool.Pool
+  | 0, p => p
+  | n + 1, p => openN n (ScyllaVerif.Pool.step p .opened)
+
+/-- The refiller has had its time: every reported death is processed; if the node accepts, the pool is refilled
+to its target size, otherwise the attempts fail. -/
+def poolWait (target : Nat) (st : PoolSt) : PoolSt :=
+  let p1 := st.p.pending.foldl (fun p id => ScyllaVerif.Pool.step p (.process id)) st.p
+  let p2 := if st.refusing then ScyllaVerif.Pool.step p1 .openFailed else openN (target - p1.conns.length) p1
+  { st with p := p2, settled := true, out := s!"c={p2.shared.length}" :: st.out }
+
+def poolStep (target : Nat) (ka : Bool) (st : PoolSt) (op : String) : Option PoolSt :=
+  match C02.splitOp op with
+  | none => none
+  | some (c, arg) =>
+    if c == 'F' || c == 'A' || c == 'W' then
+      if arg != "" then none else
+      if c == 'W' then some (poolWait target st)
+      else some { st with refusing := c == 'F', settled := false }
+    else
+    match arg.toNat? with
+    | none => none
+    | some n =>
+      if n > 64 then none else
+      if c == 'K' || c == 'R' || c == 'Z' then
+        if c == 'Z' && !ka then none else
+        let live := st.p.conns.filter (fun id => !st.p.dead.contains id)
+        match live[n]? with
+        | some id => some { st with p := ScyllaVerif.Pool.step st.p (.die id), settled := false }
+        | none => some { st with settled := false }
+      else if c == 'Q' || c == 'H' then
+        if !st.settled then none else
+        -- routing reads the published list: a request succeeds iff it is handed a live connection
+        let ok := if !st.p.shared.isEmpty && st.p.shared.all (fun id => !st.p.dead.contains id) then n else 0
+        some { st with out := s!"{if c == 'Q' then "q" else "h"}={ok}/{n}" :: st.out }
+      else none
+
+def runPool (cfg script : String) : String :=
+  match (cfg.splitOn "/").map String.toNat? with
+  | [some nr, some k, some ka] =>
+    if nr == 1 || nr > 8 || k == 0 || k > 8 || ka > 1 || (nr != 0 && k != 1) then "bad-case" else
+    let target := if nr == 0 then k else nr * k
+    let rec go : List String → PoolSt → Option PoolSt
+      | [], st => some st
+      | op :: rest, st =>
+        match poolStep target (ka == 1) st op with
+        | none => none
+        | some st' => go rest st'
+    match go (C02.splitOps script) { p := openN target ScyllaVerif.Pool.Pool.init } with
+    | none => "bad-case"
+    | some st => ",".intercalate st.out.reverse
+  | _ => "bad-case"
+
 def run (case _impl : String) : String :=
   match words case with
   | ["frames", hex] =>
@@ -34,6 +97,7 @@ def run (case _impl : String) : String :=
     | none => "bad-case"
   | ["conn", wc, ops] => if wc == "0" || wc == "1" then C02.runConn (C02.splitOps ops) else "bad-case"
   | ["conn", wc] => if wc == "0" || wc == "1" then C02.runConn [] else "bad-case"
+  | ["pool", cfg, script] => runPool cfg script
   | ["race", cfg, seed] =>
     -- multi-thread race of submissions with a connection reset: not deterministic, judged by the oracle only
     -- ("every submitted request completes": `Props.C10.race_window_drains`); the model's line is the constant
